@@ -21,8 +21,8 @@ Judge(E) ==
       d == (IF written' /\ E.hist # CodeHistory' THEN {"DRIFT:history"} ELSE {})
            \cup (IF written' /\ E.oldest # CodeOldest' THEN {"DRIFT:oldest"} ELSE {})
            \cup (IF E.recent # CodeRecent' THEN {"DRIFT:recent"} ELSE {})
-  IN /\ (v = {} \/ PrintT(<<"VIOL", l, v>>))
-     /\ (d = {} \/ PrintT(<<"VIOL", l, d>>))
+  IN /\ (IF v = {} THEN TRUE ELSE PrintT(<<"VIOL", l, v>>))
+     /\ (IF d = {} THEN TRUE ELSE PrintT(<<"VIOL", l, d>>))
 
 TNext == /\ l <= Len(Trace) /\ l' = l + 1
          /\ \E E \in {Trace[l]} :
